@@ -3,6 +3,7 @@ package props
 import (
 	"bytes"
 	"fmt"
+	"math"
 	"math/big"
 	"sort"
 
@@ -65,6 +66,12 @@ type bsiAPI interface {
 	Clone() bsiAPI
 	RetainSetNew(cols []uint64) bsiAPI
 	MarshalRoundTrip() (bsiAPI, error)
+	// MarshalInto decodes MarshalBinary's output into another kind of receiver: 1 = a fresh index created for the full
+	// int64 range, 2 = a default index that already holds other columns and wider values
+	MarshalInto(kind int) (bsiAPI, error)
+	// aliased arguments: the index's own existence bitmap object as found set; the index itself as addend
+	ClearOwn()
+	AddSelf()
 	StreamRoundTrip() (bsiAPI, int64, int64, error, bool)
 	Equals(o bsiAPI) bool
 	GetValue(c uint64) (int64, bool)
@@ -88,6 +95,8 @@ type bsiAPI interface {
 	Transpose() []uint64
 	IntersectAndTranspose(par int, found []uint64, nilFound bool) []uint64
 	TransposeWithCounts(par int, found []uint64, nilFound bool) map[uint64]int64
+	// TransposeWithCountsNilFilter: the same with no filter argument where the implementation has one (ok=false otherwise)
+	TransposeWithCountsNilFilter(par int, found []uint64, nilFound bool) (map[uint64]int64, bool)
 	// MutateResult: mutates the bitmap returned by a fresh CompareValue(EQ...)-like query and reports whether a repeated query changed
 	ResultIndependent(par int, op int, a int64) bool
 }
@@ -159,6 +168,28 @@ func (x *a64) MarshalRoundTrip() (bsiAPI, error) {
 	}
 	return &a64{n}, nil
 }
+func (x *a64) MarshalInto(kind int) (bsiAPI, error) {
+	data, err := x.b.MarshalBinary()
+	if err != nil {
+		return nil, err
+	}
+	var n *roaring64.BSI
+	switch kind {
+	case 1:
+		n = roaring64.NewBSI(math.MaxInt64, math.MinInt64)
+	default:
+		n = roaring64.NewDefaultBSI()
+		n.SetValue(7, -5)
+		n.SetValue(8, 1<<20)
+		n.SetValue(1<<40, 3)
+	}
+	if err := n.UnmarshalBinary(data); err != nil {
+		return nil, err
+	}
+	return &a64{n}, nil
+}
+func (x *a64) ClearOwn() { x.b.ClearValues(x.b.GetExistenceBitmap()) }
+func (x *a64) AddSelf()  { x.b.Add(x.b) }
 func (x *a64) StreamRoundTrip() (bsiAPI, int64, int64, error, bool) {
 	var buf bytes.Buffer
 	w, err := x.b.WriteTo(&buf)
@@ -258,6 +289,15 @@ func (x *a64) TransposeWithCounts(par int, found []uint64, nilFound bool) map[ui
 	}
 	return out
 }
+func (x *a64) TransposeWithCountsNilFilter(par int, found []uint64, nilFound bool) (map[uint64]int64, bool) {
+	r := x.b.TransposeWithCounts(par, found64(x, found, nilFound, false), nil)
+	out := map[uint64]int64{}
+	for _, c := range r.GetExistenceBitmap().ToArray() {
+		v, _ := r.GetValue(c)
+		out[c] = v
+	}
+	return out, true
+}
 func (x *a64) ResultIndependent(par, op int, a int64) bool {
 	r1 := x.b.CompareValue(par, roaring64.Operation(op), a, a, nil)
 	before := r1.ToArray()
@@ -355,6 +395,28 @@ func (x *a32) MarshalRoundTrip() (bsiAPI, error) {
 	}
 	return &a32{n}, nil
 }
+func (x *a32) MarshalInto(kind int) (bsiAPI, error) {
+	data, err := x.b.MarshalBinary()
+	if err != nil {
+		return nil, err
+	}
+	var n *bsi32.BSI
+	switch kind {
+	case 1:
+		n = bsi32.NewBSI(math.MaxInt64, math.MinInt64)
+	default:
+		n = bsi32.NewDefaultBSI()
+		n.SetValue(7, -5)
+		n.SetValue(8, 1<<20)
+		n.SetValue(1<<30, 3)
+	}
+	if err := n.UnmarshalBinary(data); err != nil {
+		return nil, err
+	}
+	return &a32{n}, nil
+}
+func (x *a32) ClearOwn()                                            { x.b.ClearValues(x.b.GetExistenceBitmap()) }
+func (x *a32) AddSelf()                                             { x.b.Add(x.b) }
 func (x *a32) StreamRoundTrip() (bsiAPI, int64, int64, error, bool) { return nil, 0, 0, nil, false }
 
 // Equals: the 32-bit implementation has no Equals; compare plane by plane through the hook (content only).
@@ -433,6 +495,9 @@ func (x *a32) TransposeWithCounts(par int, found []uint64, nilFound bool) map[ui
 		out[uint64(c)] = v
 	}
 	return out
+}
+func (x *a32) TransposeWithCountsNilFilter(par int, found []uint64, nilFound bool) (map[uint64]int64, bool) {
+	return nil, false
 }
 func (x *a32) ResultIndependent(par, op int, a int64) bool {
 	r1 := x.b.CompareValue(par, bsi32.Operation(op), a, a, nil)
